@@ -353,6 +353,100 @@ theorem sumrule {sqrt : F → F} (hs : SqrtOK sqrt) {K T N : ℕ} (hK : 1 ≤ K)
     rw [Finset.sum_comm]
     refine Finset.sum_congr rfl fun a _ => Finset.sum_comm
 
+/-- a weighted identity `n·t = Σ u_a d_a + 2 ΣΣ_{a<b} w_ab c_ab` with non-negative weights survives a perturbation of every
+term by at most ε up to ε·(n + Σ u_a + 2 ΣΣ_{a<b} w_ab) -/
+theorem perturbed_identity (K : ℕ) (n : F) (u : ℕ → F) (w : ℕ → ℕ → F) (hn : 0 ≤ n) (hu : ∀ a, 0 ≤ u a) (hw : ∀ a b, 0 ≤ w a b)
+    (t t' : F) (d d' : ℕ → F) (c c' : ℕ → ℕ → F) (ε : F)
+    (h : n * t = ∑ a ∈ range K, u a * d a + 2 * ∑ a ∈ range K, ∑ b ∈ range K, if a < b then w a b * c a b else 0)
+    (ht : |t' - t| ≤ ε) (hd : ∀ a, |d' a - d a| ≤ ε) (hc : ∀ a b, |c' a b - c a b| ≤ ε) :
+    |n * t' - (∑ a ∈ range K, u a * d' a + 2 * ∑ a ∈ range K, ∑ b ∈ range K, if a < b then w a b * c' a b else 0)|
+      ≤ ε * (n + (∑ a ∈ range K, u a + 2 * ∑ a ∈ range K, ∑ b ∈ range K, if a < b then w a b else 0)) := by
+  have eA : ∑ a ∈ range K, u a * d' a - ∑ a ∈ range K, u a * d a = ∑ a ∈ range K, u a * (d' a - d a) := by
+    rw [← Finset.sum_sub_distrib]; exact Finset.sum_congr rfl fun a _ => by ring
+  have eB : (∑ a ∈ range K, ∑ b ∈ range K, if a < b then w a b * c' a b else 0)
+      - (∑ a ∈ range K, ∑ b ∈ range K, if a < b then w a b * c a b else 0)
+      = ∑ a ∈ range K, ∑ b ∈ range K, if a < b then w a b * (c' a b - c a b) else 0 := by
+    rw [← Finset.sum_sub_distrib]
+    refine Finset.sum_congr rfl fun a _ => ?_
+    rw [← Finset.sum_sub_distrib]
+    refine Finset.sum_congr rfl fun b _ => ?_
+    split <;> ring
+  have key : n * t' - (∑ a ∈ range K, u a * d' a + 2 * ∑ a ∈ range K, ∑ b ∈ range K, if a < b then w a b * c' a b else 0)
+      = n * (t' - t) - (∑ a ∈ range K, u a * (d' a - d a)
+          + 2 * ∑ a ∈ range K, ∑ b ∈ range K, if a < b then w a b * (c' a b - c a b) else 0) := by
+    rw [← eA, ← eB, mul_sub, h]; ring
+  rw [key]
+  have b1 : |n * (t' - t)| ≤ ε * n := by
+    rw [abs_mul, abs_of_nonneg hn, mul_comm]; exact mul_le_mul_of_nonneg_right ht hn
+  have b2 : |∑ a ∈ range K, u a * (d' a - d a)| ≤ ε * ∑ a ∈ range K, u a := by
+    refine (Finset.abs_sum_le_sum_abs _ _).trans ?_
+    rw [Finset.mul_sum]
+    refine Finset.sum_le_sum fun a _ => ?_
+    rw [abs_mul, abs_of_nonneg (hu a), mul_comm]; exact mul_le_mul_of_nonneg_right (hd a) (hu a)
+  have b3 : |∑ a ∈ range K, ∑ b ∈ range K, if a < b then w a b * (c' a b - c a b) else 0|
+      ≤ ε * ∑ a ∈ range K, ∑ b ∈ range K, if a < b then w a b else 0 := by
+    refine (Finset.abs_sum_le_sum_abs _ _).trans ?_
+    rw [Finset.mul_sum]
+    refine Finset.sum_le_sum fun a _ => ?_
+    refine (Finset.abs_sum_le_sum_abs _ _).trans ?_
+    rw [Finset.mul_sum]
+    refine Finset.sum_le_sum fun b _ => ?_
+    split
+    · rw [abs_mul, abs_of_nonneg (hw a b), mul_comm]; exact mul_le_mul_of_nonneg_right (hc a b) (hw a b)
+    · simp
+  have tri : ∀ x y z : F, |x - (y + 2 * z)| ≤ |x| + (|y| + 2 * |z|) := by
+    intro x y z
+    have h1 := abs_sub x (y + 2 * z)
+    have h2 := abs_add_le y (2 * z)
+    have h3 : |2 * z| = 2 * |z| := by rw [abs_mul]; simp
+    linarith
+  refine (tri _ _ _).trans ?_
+  have : ε * (n + (∑ a ∈ range K, u a + 2 * ∑ a ∈ range K, ∑ b ∈ range K, if a < b then w a b else 0))
+      = ε * n + (ε * ∑ a ∈ range K, u a + 2 * (ε * ∑ a ∈ range K, ∑ b ∈ range K, if a < b then w a b else 0)) := by ring
+  rw [this]
+  linarith
+
+/-- a linear identity that holds for every row holds for the means over any set of rows -/
+theorem mean_identity {ι : Type} (G : Finset ι) (K : ℕ) (n : F) (u : ℕ → F) (w : ℕ → ℕ → F)
+    (t : ι → F) (d : ℕ → ι → F) (c : ℕ → ℕ → ι → F)
+    (h : ∀ k, n * t k = ∑ a ∈ range K, u a * d a k + 2 * ∑ a ∈ range K, ∑ b ∈ range K, if a < b then w a b * c a b k else 0) :
+    n * ((∑ k ∈ G, t k) / (G.card : F)) =
+      ∑ a ∈ range K, u a * ((∑ k ∈ G, d a k) / (G.card : F))
+      + 2 * ∑ a ∈ range K, ∑ b ∈ range K, if a < b then w a b * ((∑ k ∈ G, c a b k) / (G.card : F)) else 0 := by
+  have hs : ∑ k ∈ G, n * t k = ∑ a ∈ range K, u a * ∑ k ∈ G, d a k
+      + 2 * ∑ a ∈ range K, ∑ b ∈ range K, if a < b then w a b * ∑ k ∈ G, c a b k else 0 := by
+    rw [Finset.sum_congr rfl (fun k _ => h k), Finset.sum_add_distrib, ← Finset.mul_sum]
+    congr 1
+    · rw [Finset.sum_comm]
+      exact Finset.sum_congr rfl fun a _ => (Finset.mul_sum _ _ _).symm
+    · congr 1
+      rw [Finset.sum_comm]
+      refine Finset.sum_congr rfl fun a _ => ?_
+      rw [Finset.sum_comm]
+      refine Finset.sum_congr rfl fun b _ => ?_
+      split
+      · exact (Finset.mul_sum _ _ _).symm
+      · simp
+  have e1 : ∀ a, u a * ((∑ k ∈ G, d a k) / (G.card : F)) = (u a * ∑ k ∈ G, d a k) / (G.card : F) := fun a => (mul_div_assoc _ _ _).symm
+  have e2 : ∀ a b, (if a < b then w a b * ((∑ k ∈ G, c a b k) / (G.card : F)) else 0)
+      = (if a < b then w a b * ∑ k ∈ G, c a b k else 0) / (G.card : F) := by
+    intro a b; split
+    · exact (mul_div_assoc _ _ _).symm
+    · simp
+  simp only [e1, e2, ← Finset.sum_div]
+  rw [← mul_div_assoc, ← mul_div_assoc, ← add_div, Finset.mul_sum, hs]
+
+/-- rounding every row by at most ε moves a mean by at most ε -/
+theorem mean_perturb {ι : Type} (G : Finset ι) (v v' : ι → F) (ε : F) (hε : 0 ≤ ε) (h : ∀ k, |v' k - v k| ≤ ε) :
+    |(∑ k ∈ G, v' k) / (G.card : F) - (∑ k ∈ G, v k) / (G.card : F)| ≤ ε := by
+  rcases Nat.eq_zero_or_pos G.card with h0 | h0
+  · simp [h0, hε]
+  · have hg : (0 : F) < (G.card : F) := Nat.cast_pos.2 h0
+    rw [← sub_div, ← Finset.sum_sub_distrib, abs_div, abs_of_pos hg, div_le_iff₀ hg]
+    refine (Finset.abs_sum_le_sum_abs _ _).trans ?_
+    calc ∑ k ∈ G, |v' k - v k| ≤ ∑ _k ∈ G, ε := Finset.sum_le_sum fun k _ => h k
+      _ = ε * (G.card : F) := by rw [Finset.sum_const, nsmul_eq_mul, mul_comm]
+
 /-! ### non-negativity -/
 
 theorem reMulConj_self_nonneg (a : Cx F) : 0 ≤ reMulConj a a := by
